@@ -1227,7 +1227,12 @@ def run_tok(ctx):
     crate, E, reach, fns, scanned = _tok_scan(ctx)
     ctx.floor("TOKPANIC", "functions on the tokenization path outside the builders", len(fns), 30)
     ctx.floor("TOKPANIC", "potential panic / wrap sites", len(scanned), 90)
-    entries = {e["key"]: e for e in load_table()["entries"]}
+    patterns = [p for p in load_table().get("patterns", []) if p.get("scope") == "TOK"]
+    ctx.floor("TOKPANIC", "table rules for the tokenization path", len(patterns), 40)
+    open_keys = set()
+    from engine import load_known
+    for prop_keys in load_known()[0].values():
+        open_keys |= {k.split("|", 1)[1] for k in prop_keys if k.startswith("TOKPANIC|")}
     guard_cache = {}
     tags = {}
     for s, r in scanned:
@@ -1237,7 +1242,12 @@ def run_tok(ctx):
             ctx.ob("TOKPANIC", s.key, True, s.loc, "%s in %s: discharged by %s (%s)" % (
                 s.desc, s.fn.split("::")[-1], r[0], r[1]), {"reach": chain})
             continue
-        e = entries.get("TOK|" + s.key)
+        e = None
+        if s.key not in open_keys:       # recorded findings are never covered by a table rule
+            for p in patterns:
+                if p["fn"] in s.fn and re.search(p["rx"], s.key):
+                    e = p
+                    break
         if e is not None:
             ok, gtxt = True, ""
             if e.get("guard"):
